@@ -481,7 +481,8 @@ class Interp:
         """closed-form effect of a whole loop; returns (exit block, exiting block)"""
         f = self.f
         hdr = L["header"]
-        if len(L["exiting"]) != 1 or len(L["exits"]) != 1:
+        two = len(L["exiting"]) == 2 and len(set(L["exits"])) == 1
+        if not two and (len(L["exiting"]) != 1 or len(L["exits"]) != 1):
             raise Broken("D-COV: loop with several exits in %s" % f.name)
         # header phis take their initial values first (needed by SCEV unknowns defined by phis outside)
         init = {}
@@ -492,15 +493,31 @@ class Interp:
             for inc, pb in I.get("inc"):
                 if pb == pred:
                     init[I.id] = self.val(tuple(inc))
-        T = self.scev(L["btc"])
-        if T is None:
-            T = self.trip_from_exit(L, init)
+        taken = None
+        if two:
+            # `while (len > 0 && ((uintptr_t)p & 3) != 0)`: a count-down and a test of the cursor's alignment, both before the body
+            tt = self.two_exit_trip(L, init)
+            if tt is None:
+                raise Broken("D-COV: loop with two exits in %s that are not a header count-down plus an alignment test of the cursor" % f.name)
+            T, taken = tt
+        else:
+            T = self.scev(L["btc"])
+            if T is None:
+                T = self.trip_from_exit(L, init)
+            if T is None and L["exiting"] != [hdr]:
+                # the same two tests with the `&&` merged into one exiting block (unoptimised code shape)
+                tt = self.two_exit_trip(L, init)
+                if tt is not None:
+                    T, taken = tt
+                    two = True
         if T is None:
             raise Broken("D-COV: trip count %s of the loop at %s not expressible in class {%s}" % (L["btc_text"], f.term(hdr).where, self.cls))
         if self.sign(T) == -1:
             raise Broken("D-COV: negative trip count")
         self.trips[hdr] = T
-        exiting = L["exiting"][0]
+        exiting = L["exiting"][0] if not two else hdr
+        second = None if not two else ([x for x in L["exiting"] if x != hdr] + [None])[0]
+        between = set() if not two else self._test_blocks(L)
         # stores inside the loop
         for b in L["blocks"]:
             for iid in f.blocks[b].insts:
@@ -527,6 +544,8 @@ class Interp:
                     S, st = base
                     if OBJ not in S:
                         continue
+                    if I.b in between:
+                        raise Broken("D-COV: store to the buffer between the two tests of a loop at %s" % I.where)
                     w = I.get("size")
                     execs = T.add(LF.c(1)) if (f.dominates_block(I.b, exiting) and True) and I.b == exiting or (f.dominates_block(I.b, exiting) and I.b != hdr and exiting != hdr) else T
                     # header-exiting loops: body blocks run T times; latch-exiting: blocks dominating the exiting block run T+1 times
@@ -607,14 +626,118 @@ class Interp:
             if I.op == "phi" or I.is_dbg() or I.is_lifetime() or I.op == "br":
                 continue
             self.step(I)
+        if taken is not None and taken != hdr:
+            for iid in f.blocks[taken].insts:
+                I = f.insts[iid]
+                if I.op == "phi" or I.is_dbg() or I.is_lifetime() or I.op == "br":
+                    continue
+                self.step(I)
+            return L["exits"][0], taken
         return L["exits"][0], hdr
 
-    def trip_from_exit(self, L, init):
+    def _test_blocks(self, L):
+        """blocks of a two-test loop that belong to its tests (everything that does not dominate... is not dominated by the last test)"""
+        f = self.f
+        hdr = L["header"]
+        last = [x for x in L["exiting"] if x != hdr]
+        last = last[0] if last else L["exiting"][0]
+        return {b for b in L["blocks"] if b == hdr or b == last or not f.dominates_block(last, b)}
+
+    def two_exit_trip(self, L, init):
+        """(trip count, block the loop is left from) of a loop with two tests in front of its body: the header's count-down of the
+        remaining length and, in the block after it, `(address of the cursor & (2^k - 1)) != 0` with the cursor advancing by one byte"""
+        f = self.f
+        hdr = L["header"]
+        th = f.term(hdr)
+        if th.op != "br" or not th.get("cond"):
+            return None
+        merged = hdr not in L["exiting"]
+        if not merged:
+            b2 = [x for x in L["exiting"] if x != hdr][0]
+            if b2 not in th.get("succ") or list(f.blocks[b2].preds) != [hdr]:
+                return None
+            t2 = f.term(b2)
+            if t2.op != "br" or not t2.get("cond"):
+                return None
+            C = f.inst(t2.ops[0])
+            stay_on_true = t2.get("succ")[0] in L["blocks"]
+            leave = b2
+        else:
+            # header: `len > 0 ? second test : join`; second test block falls into the join; the join leaves on phi [false, second test]
+            E = L["exiting"][0]
+            te = f.term(E)
+            if te.op != "br" or not te.get("cond") or E not in th.get("succ"):
+                return None
+            b2 = [x for x in th.get("succ") if x != E]
+            if len(b2) != 1 or list(f.blocks[b2[0]].preds) != [hdr] or list(f.blocks[b2[0]].succs) != [E] or sorted(f.blocks[E].preds) != sorted([hdr, b2[0]]):
+                return None
+            b2 = b2[0]
+            Ph = f.inst(te.ops[0])
+            if Ph is None or Ph.op != "phi" or Ph.b != E:
+                return None
+            inc = {pb: tuple(v) for v, pb in Ph.get("inc")}
+            if inc.get(hdr, ("?",))[0] != "c" or int(inc[hdr][1]) != 0 or th.get("succ")[0] != b2:
+                return None             # (the header must leave on false, and stay means: both tests true)
+            C = f.inst(inc.get(b2))
+            stay_on_true = te.get("succ")[0] in L["blocks"]
+            if [x for x in f.blocks[E].insts if f.insts[x].op not in ("phi", "br") and not f.insts[x].is_dbg()]:
+                return None
+            leave = E
+        for iid in f.blocks[b2].insts:
+            I = f.insts[iid]
+            if I.op in ("store", "call") and not I.is_dbg() and not I.is_lifetime():
+                return None
+        T1 = self.trip_from_exit(L, init, force=True)
+        if T1 is None:
+            return None
+        if C is None or C.op != "icmp" or C.get("pred") not in ("ne", "eq"):
+            return None
+        if (C.get("pred") == "ne") != stay_on_true:
+            return None             # the loop must go on while the low address bits are non-zero
+        x, z = C.ops
+        if not (z[0] == "c" and int(z[1]) == 0):
+            return None
+        A = f.inst(tuple(x))
+        if A is None or A.op != "and":
+            return None
+        val, msk = (A.ops[0], A.ops[1]) if A.ops[1][0] == "c" else (A.ops[1], A.ops[0])
+        if msk[0] != "c":
+            return None
+        m = int(msk[1])
+        if m <= 0 or (m & (m + 1)) or (m + 1) > self.cls.W:
+            return None
+        J = f.inst(tuple(val))
+        while J is not None and J.op in ("zext", "trunc", "ptrtoint", "bitcast"):
+            prev = J
+            J = f.inst(tuple(J.ops[0]))
+        if J is None or J.op != "phi" or J.b != hdr:
+            return None
+        # the cursor advances by exactly one byte per iteration
+        sc = J.get("scev")
+        if not (sc and sc.get("k") == "rec" and sc.get("affine") and sc["loop"] == hdr):
+            return None
+        st = self.scev(sc["ops"][1])
+        S = init.get(J.id)
+        if st is None or st.const() != 1 or S is None:
+            return None
+        low = self.bitop("and", S, m)
+        if low is None or low.const() is None:
+            return None
+        T2 = LF.c((-low.const()) % (m + 1))
+        d = T1.add(T2, -1)
+        sg = self.sign(d)
+        if sg is None:
+            return None
+        if merged:
+            return (T2 if sg > 0 else T1, leave)
+        return (T2, b2) if sg > 0 else (T1, hdr)
+
+    def trip_from_exit(self, L, init, force=False):
         """trip count of a while-shaped loop from its header test when SCEV gives up:
         'phi >= K' / 'phi > K' / 'phi != 0' with phi = {S,+,-s};  'phi < E' with phi = {S,+,s}"""
         f = self.f
         hdr = L["header"]
-        if L["exiting"] != [hdr]:
+        if L["exiting"] != [hdr] and not force:
             return None
         t = f.term(hdr)
         if t.op != "br" or not t.get("cond"):
@@ -775,3 +898,25 @@ def coverage(f, buf_arg, len_arg, fixed_args=None, W=8, Q0=8, mode="write", fiel
         if not ok and bad is None:
             bad = (cls, why)
     return n, bad, used
+
+
+def aligned_accesses(f, buf_arg, len_arg, fixed_args=None, W=8, Q0=8):
+    """instructions accessing the buffer with a width w > 1 whose address is a multiple of w in every (alignment, length) class in which
+    they execute -> set of instruction ids shown aligned, set shown misaligned in some class (with the class)"""
+    good, badm = set(), {}
+    for mode in ("write", "read"):
+        for cls in classes(W, Q0):
+            it = Interp(f, buf_arg, len_arg, cls, fixed_args, mode=mode)
+            it.run()
+            for (lo, hi, w, iid, kind) in it.intervals:
+                if w <= 1 or W % w:
+                    continue
+                ext = it.sign(hi.add(lo, -1))
+                if ext == 0:
+                    continue            # not executed in this class
+                ok = ext is not None and all(c % w == 0 for s_, c in lo.items() if s_ != 1) and (cls.a + lo.get(1, 0)) % w == 0
+                if ok:
+                    good.add(iid)
+                else:
+                    badm.setdefault(iid, repr(cls))
+    return good - set(badm), badm
